@@ -4,7 +4,7 @@
    content of the root_scope / static inventories checked on every run. *)
 From Coq Require Import Permutation.
 From GV.Model Require Import Batch.
-From GV.Proofs Require Import CliProps BatchProps.
+From GV.Proofs Require Import CliProps BatchProps FrameProps.
 
 Theorem C12_batch_is_pointwise : forall re conv fuel rs ds i j r d,
   nth_error rs i = Some r -> nth_error ds j = Some d ->
@@ -54,3 +54,17 @@ Theorem C12_data_order_irrelevant : forall m n rs f,
   exit_status (validate_exit m true n rs) = exit_status (validate_exit m true n (permute_rows f rs)).
 Proof. exact data_order_irrelevant. Qed.
 Print Assumptions C12_data_order_irrelevant.
+
+(* scope discipline inside one evaluation: every rule, clause, query, variable resolution and function call, of ANY program,
+   hands back the scope stack it was given - the same frames, roots and definitions; only variable memos and the
+   rule-status cache may have grown. Nothing of one rule's or one block's scopes is left behind for the next. *)
+Theorem C12_scope_stack_is_handed_back : forall re conv prog fuel, ev_kshape (evalN re conv prog fuel).
+Proof. exact evalN_keeps_shape. Qed.
+Print Assumptions C12_scope_stack_is_handed_back.
+
+(* ... and after the file only the root scope of this (rules file, document) pair is left *)
+Theorem C12_file_ends_in_its_root_scope : forall re conv prog fuel doc st recs s',
+  eval_file re conv prog fuel doc = Done (st, recs, s') ->
+  exists memo, frames s' = [FRoot doc (rf_lets prog) memo].
+Proof. exact eval_file_keeps_shape. Qed.
+Print Assumptions C12_file_ends_in_its_root_scope.
